@@ -13,7 +13,7 @@ CONFIG = {
                 "oneofs (plain, exposed, hidden, named `type`), proto3-optional, maps (string and other key kinds), repeated, every "
                 "scalar kind incl. fixed32/fixed64/sfixed32/sfixed64/sint32/sint64, Timestamp/Any and the j5 date/decimal/any types "
                 "(single, list and map), the unsupported google types Duration/Struct/Empty/wrappers/FieldMask/Value, self and mutual "
-                "recursion (also through flatten), oneof wrappers by shape and by option, psm markers, duplicate / custom json_name, a "
+                "recursion (also through flatten), flatten chains 3..5 deep with several leaves (every fifth set), oneof wrappers by shape and by option, psm markers, duplicate / custom json_name, a "
                 "field whose json_name is the lowerCamel name of an exposed oneof of the same message, schema-name collisions through "
                 "'_' (message/message and message/enum), sub-packages (x.v1.service / x.v1.topic) referenced from another package; "
                 "the witnesses of every recorded finding (open and repaired) and of the seeded changes run first in each shard; "
